@@ -389,13 +389,66 @@ def _frame(ctx, SPEC):
         ok = False
         if wgot is not None:
             wnode = outs[2][2]["args"][0]
-            ok = _window_byte_ok(sb, wnode)
+            ok, wwhy = _window_byte_eval(sb, wnode)
+            if ok is None:
+                ok = _window_byte_ok(sb, wnode)         # not a closed-form expression of the window size: the reviewed shape
+            elif not ok:
+                wgot = "%s: %s" % (wgot, wwhy)
             pcs = [p["cond"] for p in ix.path_conditions(outs[2][2])]
             ok = ok and any("single_segment" in p and p.startswith("!") for p in pcs)
         ctx.check(ok, RE, "serialize::window-descriptor", sb["file"],
-                  "window descriptor must be (ceil_log2(window) - 10) << 3 (mantissa 0, advertised >= requested), "
-                  "written only when the frame is not single-segment", observed=wgot)
+                  "the window descriptor byte (exponent << 3 | mantissa) must describe, by the RFC formula, a window at least as large as the "
+                  "one requested, for every window size from 1 byte to 2^41 (evaluated at every power of two, every mantissa step and their "
+                  "neighbours), and be written only when the frame is not single-segment", observed=wgot)
     ctx.guard(RE, "writer", writer)
+
+
+def _window_byte_eval(body, node):
+    """(True|False|None, why): evaluate the descriptor byte as a function of the requested window size (the binding of
+    `if let Some(w) = self.window_size`) over a finite set of sizes that contains every boundary of the exponent/mantissa
+    grid up to 2^41, and decode it with RFC 8878 3.1.1.1.2.  None: not evaluable (caller falls back to the shape)."""
+    from .. import ieval
+    lets = [x for x in hq.find(body["body"], lambda x: x.get("k") == "Let" and (hq.self_fields(x.get("init") or {}) or [None])[-1] == "window_size")]
+    if len(lets) != 1:
+        return None, "no single `if let Some(w) = self.window_size`"
+    binds = []
+
+    def pw(x):
+        if isinstance(x, dict):
+            if x.get("k") == "Bind" and "lid" in x:
+                binds.append(x)
+            for v in x.values():
+                pw(v)
+        elif isinstance(x, list):
+            for v in x:
+                pw(v)
+    pw(lets[0]["pat"])
+    if len(binds) != 1:
+        return None, "pattern binds more than the size"
+    lid = binds[0]["lid"]
+    dom = set()
+    for k in range(0, 42):
+        b = 1 << k
+        for j in range(0, 8):
+            v = b + j * (b >> 3) if k >= 3 else b
+            dom.update((v - 1, v, v + 1))
+    dom = sorted(w for w in dom if 1 <= w <= (1 << 41))
+    ev = ieval.IEval(body, {})
+    try:
+        for w in dom:
+            ev.env = {lid: w}
+            v = ev.ev(node)
+            if not isinstance(v, int) or isinstance(v, bool) or not 0 <= v < 256:
+                return False, "window %d: descriptor value %r is not a byte" % (w, v)
+            base = 1 << (10 + (v >> 3))
+            got = base + (base >> 3) * (v & 7)
+            if got < w:
+                return False, "a requested window of %d bytes is advertised as %d (descriptor 0x%02x)" % (w, got, v)
+    except ieval.Overflow as e:
+        return False, "window %d: %s" % (w, e.what)
+    except ieval.Unsupported as e:
+        return None, str(e)
+    return True, "%d window sizes evaluated" % len(dom)
 
 
 def _window_byte_ok(body, node):
